@@ -69,6 +69,47 @@ let suite_deblock_kernel path =
       | _ -> failwith ("bad case line: " ^ line))
     (read_lines path)
 
+(* ---------------- yuv ---------------- *)
+let parse_range s =
+  match Stdlib.List.map int_of_string (String.split_on_char ':' s) with
+  | [ lo; hi; st ] ->
+      let rec go x acc = if x > hi then Stdlib.List.rev acc else go (x + st) (x :: acc) in
+      go lo []
+  | _ -> failwith "range"
+
+(* binary table: 3 bytes (r,g,b) per triple of the product, from the model kernel `px`;
+   with "spec" as first argument from the spec formula instead *)
+let suite_yuv_table which outp ys cbs crs =
+  let oc = open_out_bin outp in
+  let zc = Array.init 256 z in
+  Stdlib.List.iter (fun y ->
+    Stdlib.List.iter (fun cb ->
+      Stdlib.List.iter (fun cr ->
+        let (((r, g), b), _a) =
+          if which = "spec" then Yuv.spec_px zc.(y) zc.(cb) zc.(cr) else Yuv.px zc.(y) zc.(cb) zc.(cr) in
+        output_byte oc (i r); output_byte oc (i g); output_byte oc (i b))
+        (parse_range crs)) (parse_range cbs)) (parse_range ys);
+  close_out oc
+
+let suite_yuv_img which path =
+  Stdlib.List.iter
+    (fun line ->
+      match split_ws line with
+      | [ idx; w; yh; cbh; crh ] ->
+          let ys = zs_of_hex yh and cbs = zs_of_hex cbh and crs = zs_of_hex crh in
+          let w = int_of_string w in
+          if which = "spec" then begin
+            let h = if w = 0 then 0 else Stdlib.List.length ys / w in
+            Printf.printf "%s ok %s\n" idx (hex_of_zs (Yuv.rgba_spec_flat ys cbs crs (z w) (z h)))
+          end else
+          (match Yuv.yuv420_to_rgba ys cbs crs (z w) with
+          | Prelude.Ok out -> Printf.printf "%s ok %s\n" idx (hex_of_zs out)
+          | Prelude.Panic _ -> Printf.printf "%s panic\n" idx
+          | _ -> Printf.printf "%s other\n" idx)
+      | [] -> ()
+      | _ -> failwith ("bad case line: " ^ line))
+    (read_lines path)
+
 let suite_strength_table () =
   Printf.printf "model %s\n"
     (String.concat "," (Stdlib.List.map (fun x -> string_of_int (i x)) Deblock.quant_to_strength));
@@ -82,4 +123,6 @@ let () =
   | _ :: "deblock-tables" :: _ -> suite_deblock_tables ()
   | _ :: "deblock-kernel" :: p :: _ -> suite_deblock_kernel p
   | _ :: "strength-table" :: _ -> suite_strength_table ()
+  | _ :: "yuv-table" :: which :: o :: a :: b :: c :: _ -> suite_yuv_table which o a b c
+  | _ :: "yuv-img" :: which :: p :: _ -> suite_yuv_img which p
   | _ -> prerr_endline "usage: driver <suite> [file]"; exit 2
